@@ -2,6 +2,7 @@ package rules
 
 import (
 	"fmt"
+	"sort"
 	"go/token"
 	"go/types"
 	"strings"
@@ -249,6 +250,38 @@ func init() {
 				}
 				ok, why = x.mustHold(c, "pull", "W")
 				x.check(ok, k+" lock=pull", x.pos(c), "pull lock held around PushPull", "PushPull for a real client without the per-(client,document) pull lock: "+why)
+				// the client record (its stored checkpoint and attachment state) is read under the same pull lock:
+				// a request queued behind another request of the same client must not run on what it read before waiting
+				findActive := x.P.FnObj("server/clients.FindActiveClientInfo")
+				for _, fc := range callsToIn(c.Parent(), findActive) {
+					fcc, isCall := fc.(*ssa.Call)
+					if !isCall {
+						continue
+					}
+					feeds := prog.Reaches(paramArg(c, 3), func(v ssa.Value) bool {
+						if ex, ok := v.(*ssa.Extract); ok {
+							if ex.Tuple == ssa.Value(fcc) {
+								return true
+							}
+							// through clients.AttachDocument(ctx, be, clientInfo, …)
+							if ac, ok := ex.Tuple.(*ssa.Call); ok && prog.CallObj(ac) != nil && prog.CallObj(ac).Name() == "AttachDocument" {
+								return prog.Reaches(paramArg(ac, 2), func(w ssa.Value) bool {
+									e2, ok := w.(*ssa.Extract)
+									return ok && e2.Tuple == ssa.Value(fcc)
+								})
+							}
+						}
+						return false
+					})
+					if !feeds {
+						continue
+					}
+					okp, whyp := x.mustHold(fc, "pull", "W")
+					x.check(okp, k+" client-record-read-under-pull-lock", x.pos(fc), "the ClientInfo passed to PushPull is read under the pull lock",
+						"the ClientInfo (stored checkpoint, attachment state) passed to PushPull is read before the per-(client,document) pull lock is held: a request queued behind another one of the same client runs on stale data and stores its changes twice or after a detach: "+whyp)
+					okd, whyd := x.mustHold(fc, "doc", "RW")
+					x.check(okd, k+" client-record-read-under-doc-lock", x.pos(fc), "the ClientInfo is read under the document lock", "the ClientInfo passed to PushPull is read before the document lock is held: "+whyd)
+				}
 			}
 		}})
 
@@ -760,4 +793,97 @@ func (x *Ctx) checkpointFlow(p *pipe) {
 	}
 	x.check(ok, "func="+prog.FnName(fn)+" response-checkpoint=cpAfterPush.NextServerSeq(doc.ServerSeq)", x.fpos(fn),
 		"the response checkpoint is the post-push checkpoint advanced to the document head", "the response checkpoint is not cpAfterPush.NextServerSeq(DocInfo.ServerSeq)")
+}
+
+func init() {
+	register(&Rule{ID: "WINDOW", Min: 5, Text: "retry-unsafe window (static fault enumeration): the de-duplication key of a client's changes (the ClientSeq of its stored checkpoint) is persisted by Database.UpdateClientInfoAfterPushPull, a different storage call than the log append. Every fallible step on the paths between the success of the append and the success of that persist is a point at which a failure leaves the changes stored but unacknowledged, so that the identical retry is stored a second time. The rule enumerates those steps (by the callee that can fail); each is reported, and the ones present on the pinned tree are known findings — a new fallible step in the window, or one that disappears from the list, changes the report",
+		Run: func(x *Ctx) {
+			p := x.pipe()
+			if !p.ok {
+				return
+			}
+			pp := p.PushPull
+			var push ssa.CallInstruction
+			for _, c := range x.callsReaching(pp, p.CreateCI) {
+				if _, isGo := c.(*ssa.Go); !isGo {
+					push = c
+				}
+			}
+			if push == nil {
+				x.fail("window", x.fpos(pp), "no push step")
+				return
+			}
+			steps := map[string]string{}
+			seen := map[*ssa.Function]bool{}
+			returnsErr := func(c ssa.CallInstruction) bool {
+				var sig *types.Signature
+				if c.Common().IsInvoke() {
+					sig = c.Common().Method.Type().(*types.Signature)
+				} else if o := prog.CallObj(c); o != nil {
+					sig = o.Type().(*types.Signature)
+				} else if s, ok := c.Common().Value.Type().Underlying().(*types.Signature); ok {
+					sig = s
+				}
+				return sig != nil && sig.Results().Len() > 0 && isErrorType(sig.Results().At(sig.Results().Len()-1).Type())
+			}
+			var collect func(fn *ssa.Function, after ssa.Instruction)
+			collect = func(fn *ssa.Function, after ssa.Instruction) {
+				if seen[fn] && after == nil {
+					return
+				}
+				seen[fn] = true
+				// the persist, if it is in this function, closes the window
+				var persist ssa.CallInstruction
+				for _, c := range callsTo([]*ssa.Function{fn}, p.UpdClient) {
+					persist = c
+				}
+				for _, c := range prog.CallsIn(fn) {
+					if _, isCall := c.(*ssa.Call); !isCall {
+						continue
+					}
+					if after != nil && !(prog.MayPrecede(after, c)) {
+						continue
+					}
+					if persist != nil && c != persist && !prog.MayPrecede(c, persist) {
+						continue
+					}
+					if !returnsErr(c) {
+						continue
+					}
+					callee := c.Common().StaticCallee()
+					if callee != nil && prog.PkgOf(callee) == prog.PkgOf(pp) && callee.Blocks != nil {
+						collect(callee, nil)
+						continue
+					}
+					name := ""
+					if c.Common().IsInvoke() {
+						name = c.Common().Method.Name()
+					} else if o := prog.CallObj(c); o != nil {
+						name = o.Name()
+					}
+					if name == "" {
+						continue
+					}
+					if o := prog.CallObj(c); o != nil && o.Pkg() != nil && (o.Pkg().Path() == "fmt" || o.Pkg().Path() == "errors") {
+						continue // builds an error value; cannot fail
+					}
+					if _, ok := steps[name]; !ok {
+						steps[name] = x.pos(c)
+					}
+				}
+			}
+			collect(pp, push)
+			var names []string
+			for n := range steps {
+				names = append(names, n)
+			}
+			sort.Strings(names)
+			x.C.Note("fallible steps between log append and checkpoint persist: " + strings.Join(names, ", "))
+			for _, n := range names {
+				x.fail("step="+n, steps[n], "a failure of "+n+" after the changes were appended to the log and before the client's checkpoint is persisted makes the server return an error with the changes stored; the client's identical retry is then stored again (each edit applied twice)")
+			}
+			if len(names) < 5 {
+				x.C.Vacuous(x.id()+" steps", len(names), 5)
+			}
+		}})
 }
